@@ -88,7 +88,7 @@ def check(case):
             else:
                 same_array('amplitudes', m.amplitudes, _scrub(T.amplitudes), key='amplitudes')
             same_array('channel_mapping', m.channel_mapping, T.chmap, key='channel_mapping')
-            same_array('channel_positions', m.channel_positions, T.pos, key='channel_positions')
+            same_array('channel_positions', m.channel_positions, T.pos_stored, key='channel_positions')
             exp_sh = T.shanks if T.shanks is not None else np.zeros(nc, dtype=np.int32)
             same_array('channel_shanks', m.channel_shanks, exp_sh, key='channel_shanks', dtype=False)
             exp_pr = T.probes if T.probes is not None else np.zeros(nc)
@@ -219,7 +219,7 @@ def classify(case, info):
     if not s['templates']['dense']:
         sw.append('sparse-templates')
     if s['templates'].get('nan_template'):
-        sw.append('nan-template')
+        sw.append('nan-template:' + s['templates'].get('nan_kind', 'all'))
     if s['pcf'] is None:
         sw.append('no-features')
     elif s['pcf']['rows'] is not None:
